@@ -182,4 +182,6 @@ def load(config, verbose=False):
     f = mir.Facts(path, strip_prefix=strip)
     f.config = config
     _loaded[path] = f
+    from . import effects
+    effects.register_facts(f)
     return f
